@@ -99,6 +99,33 @@ def enum_values(objs, enum_last):
     return None
 
 
+def eval_constants(cfg, names, outdir):
+    """values of compile-time constants of the real code, obtained from the real compiler: a generated program
+    includes the real header and prints each constant (config const_globals: name -> {expr, include})."""
+    import subprocess
+    if not names:
+        return {}
+    repo = astq.REPO
+    incs, prints = [], []
+    for n in sorted(names):
+        c = cfg["const_globals"][n]
+        incs.append('#include "%s/%s"' % (repo, c["include"]))
+        prints.append('  printf("%s %%lld\\n", (long long)(%s));' % (n, c["expr"]))
+    src = os.path.join(outdir, "vf_consts.cpp")
+    open(src, "w").write("\n".join(sorted(set(incs))) + "\n#include <cstdio>\nint main()\n{\n" + "\n".join(prints) +
+                         "\n  return 0;\n}\n")
+    flags = [f for f in astq.tu_flags(cfg["units"][0]["tu"]) if not f.startswith("-std=")]
+    exe = os.path.join(outdir, "vf_consts")
+    p = subprocess.run(["g++", "-std=gnu++20", "-w", "-fno-access-control"] + flags + [src, "-o", exe],
+                       capture_output=True, text=True)
+    if p.returncode != 0:
+        raise ExtractionError("constant evaluation program does not compile: " + p.stderr[-800:])
+    q = subprocess.run([exe], capture_output=True, text=True)
+    if q.returncode != 0:
+        raise ExtractionError("constant evaluation program failed")
+    return {l.split()[0]: int(l.split()[1]) for l in q.stdout.strip().split("\n") if l.strip()}
+
+
 def topo(defs):
     """defs: {tag: (text, deps)} -> ordered texts"""
     done, out, visiting = set(), [], set()
@@ -215,14 +242,22 @@ def translate(cfg, outdir):
                     cn not in cfg.get("no_auto", [])]
             if not todo:
                 break
-            tu = cfg.get("accessor_tu", units[0]["tu"])
+            tus = []
+            for t in [cfg.get("accessor_tu")] + [u["tu"] for u in units]:
+                if t and t not in tus:
+                    tus.append(t)
 
             def fetch2(x):
-                return astq.query(tu, x[1].split(" ")[0])
+                last = x[1].split(" ")[0].split("::")[-1]
+                for tu in tus:  # first TU in which the callee has an inline accessor definition
+                    objs = astq.query(tu, x[1].split(" ")[0])
+                    if [d for d in find_defs(objs, last) if is_accessor(d)]:
+                        return tu, objs
+                return tus[0], []
 
             with ThreadPoolExecutor(max_workers=int(os.environ.get("VF_JOBS", "8"))) as ex:
                 res = list(ex.map(fetch2, todo))
-            for (cn, d), objs in zip(todo, res):
+            for (cn, d), (tu, objs) in zip(todo, res):
                 tried.add(cn)
                 qn = d.split(" ")[0]
                 emit_unit({"name": qn, "tu": tu, "cname": cn, "class": cn.rsplit("__", 1)[0]}, objs, True)
@@ -299,6 +334,8 @@ def translate(cfg, outdir):
             defs[tag] = ("struct %s { char __opaque; };\n" % tag, [])
     h += topo(defs)
     h += enum_defs
+    for n, v in sorted(eval_constants(cfg, em.const_needed, outdir).items()):
+        h.append("#define VFC_%s (%d) /* %s, evaluated by g++ */" % (ident(n), v, cfg["const_globals"][n]["expr"]))
     for i, k in enumerate(sorted(em.exc_kinds)):
         h.append("#define %s (%d)" % (k, 2 + i))
     h.append(models.gen_funcs(tm, lib))
